@@ -1385,8 +1385,23 @@ impl DefaultFunction {
                 Ok(Value::Con(constant.into()))
             }
             DefaultFunction::Bls12_381_G2_MultiScalarMul => {
-                let (_, scalars) = args[0].unwrap_list()?;
-                let (_, points) = args[1].unwrap_list()?;
+                let (scalar_type, scalars) = args[0].unwrap_list()?;
+                let (point_type, points) = args[1].unwrap_list()?;
+
+                // An empty list of another element type is ill-typed all the same.
+                if *scalar_type != Type::Integer {
+                    return Err(Error::TypeMismatch(
+                        Type::List(Type::Integer.into()),
+                        Type::List(scalar_type.clone().into()),
+                    ));
+                }
+
+                if *point_type != Type::Bls12_381G2Element {
+                    return Err(Error::TypeMismatch(
+                        Type::List(Type::Bls12_381G2Element.into()),
+                        Type::List(point_type.clone().into()),
+                    ));
+                }
 
                 // Every scalar (in the full first list, regardless of the
                 // point list length) must fit within the 512-byte bound.
@@ -1926,8 +1941,23 @@ impl DefaultFunction {
                 Ok(Value::integer(exp_mod_integer(base, exponent, modulus)?))
             }
             DefaultFunction::Bls12_381_G1_MultiScalarMul => {
-                let (_, scalars) = args[0].unwrap_list()?;
-                let (_, points) = args[1].unwrap_list()?;
+                let (scalar_type, scalars) = args[0].unwrap_list()?;
+                let (point_type, points) = args[1].unwrap_list()?;
+
+                // An empty list of another element type is ill-typed all the same.
+                if *scalar_type != Type::Integer {
+                    return Err(Error::TypeMismatch(
+                        Type::List(Type::Integer.into()),
+                        Type::List(scalar_type.clone().into()),
+                    ));
+                }
+
+                if *point_type != Type::Bls12_381G1Element {
+                    return Err(Error::TypeMismatch(
+                        Type::List(Type::Bls12_381G1Element.into()),
+                        Type::List(point_type.clone().into()),
+                    ));
+                }
 
                 // Validate that every scalar (in the *whole* first list, before
                 // zipping) lies within the allowed bound, matching Plutus'
